@@ -64,7 +64,7 @@ __CPROVER_requires(input_str->len == 0 || __CPROVER_r_ok(input_str->ptr, input_s
 __CPROVER_requires(to_find->len == 0 || __CPROVER_r_ok(to_find->ptr, to_find->len))
 __CPROVER_assigns(*first_find, g_fx, g_last_error, g_raise_count)
 __CPROVER_ensures(RET == AWS_OP_SUCCESS || RET == AWS_OP_ERR)
-__CPROVER_ensures(RET == AWS_OP_ERR ==> g_last_error != 0 && first_find->len == OLD(first_find->len) && PEQ(first_find->ptr, OLD(first_find->ptr)))
+__CPROVER_ensures(RET == AWS_OP_ERR ==> g_last_error != 0 && first_find->len == OLD(first_find->len) && first_find->ptr == OLD(first_find->ptr))
 __CPROVER_ensures(RET == AWS_OP_SUCCESS ==> to_find->len >= 1 && to_find->len <= input_str->len && g_fx <= input_str->len - to_find->len &&
                   PEQ(first_find->ptr, input_str->ptr + g_fx) && first_find->len == input_str->len - g_fx)
 __CPROVER_ensures(RET == AWS_OP_SUCCESS && g_j < to_find->len ==> input_str->ptr[g_fx + g_j] == to_find->ptr[g_j])
